@@ -138,6 +138,10 @@ type half struct {
 	seg        SegFunc
 	rdl        time.Time
 	rtimer     *time.Timer
+	wdl        time.Time // write deadline of the writing end
+	writing    bool      // a windowed Write is in progress (Write calls on one socket do not interleave)
+	stalled    bool      // the network delivers nothing in this direction for now (bytes stay in flight)
+	wtimer     *time.Timer
 	cutAt      int64
 	cutKind    string
 	readerGone bool
@@ -149,6 +153,16 @@ type half struct {
 type ReadCall struct {
 	Off int64
 	T   time.Time
+}
+
+// Stall stops (on) or resumes delivery in direction dir: bytes already written stay in flight, so
+// with a bounded window the writer soon blocks in the middle of whatever it is writing.
+func (p *Pipe) Stall(dir int, on bool) {
+	h := p.h[dir]
+	h.mu.Lock()
+	h.stalled = on
+	h.c.Broadcast()
+	h.mu.Unlock()
 }
 
 // Consumed returns how many bytes of direction dir the reading end has taken out of the network.
@@ -345,6 +359,9 @@ func (c *Conn) Write(b []byte) (int, error) {
 		p.n.event(Event{T: time.Now(), Pipe: p.Idx, Dir: h.dir, Kind: "writeerr", N: len(b)})
 		return 0, err
 	}
+	if p.opts.Window > 0 && !p.opts.Router && h.cutAt < 0 {
+		return c.writeWindowed(h, b)
+	}
 	for p.opts.Window > 0 && len(h.buf)+h.queued >= p.opts.Window && h.werr == nil && !c.isClosed() {
 		h.c.Wait()
 	}
@@ -394,6 +411,83 @@ func (c *Conn) Write(b []byte) (int, error) {
 	return len(b), nil
 }
 
+// writeWindowed is Write on a connection with a bounded window (free-running delivery): like a
+// TCP socket with a full send buffer it takes what fits, blocks for the rest, and gives up at the
+// write deadline with the count of bytes already taken. Called with h.mu held; releases it.
+func (c *Conn) writeWindowed(h *half, b []byte) (int, error) {
+	p := c.p
+	// one Write at a time per direction, as the kernel does for a socket (waiting on the condition
+	// variable, not on a mutex: only the former is durable blocking for a synctest bubble)
+	for h.writing {
+		if c.isClosed() {
+			h.mu.Unlock()
+			return 0, ErrClosed
+		}
+		if h.werr != nil {
+			err := h.werr
+			h.mu.Unlock()
+			return 0, err
+		}
+		if !h.wdl.IsZero() && !time.Now().Before(h.wdl) {
+			h.mu.Unlock()
+			return 0, os.ErrDeadlineExceeded
+		}
+		h.c.Wait()
+	}
+	h.writing = true
+	now := time.Now()
+	seq := p.n.event(Event{T: now, Pipe: p.Idx, Dir: h.dir, Kind: "write", N: len(b), Off: h.total})
+	h.marks = append(h.marks, Mark{Off: h.total, N: len(b), Seq: seq, T: now, TRel: now})
+	mi := len(h.marks) - 1
+	done := 0
+	var err error
+	for done < len(b) {
+		if c.isClosed() {
+			err = ErrClosed
+			break
+		}
+		if h.werr != nil {
+			err = h.werr
+			break
+		}
+		if !h.wdl.IsZero() && !time.Now().Before(h.wdl) {
+			err = os.ErrDeadlineExceeded
+			break
+		}
+		space := p.opts.Window - len(h.buf)
+		if space <= 0 {
+			h.c.Wait()
+			continue
+		}
+		n := min(space, len(b)-done)
+		if p.n.TapBytes {
+			h.wire = append(h.wire, b[done:done+n]...)
+		}
+		h.buf = append(h.buf, b[done:done+n]...)
+		h.total += int64(n)
+		done += n
+		h.c.Broadcast()
+	}
+	if done < len(b) {
+		h.marks[mi].N = done // what really went out
+	}
+	h.writing = false
+	h.c.Broadcast()
+	fail := false
+	if err == nil {
+		fail = h.failNext
+		h.failNext = false
+	}
+	h.mu.Unlock()
+	if err != nil {
+		return done, err
+	}
+	if fail {
+		return len(b), ErrInjected
+	}
+	return len(b), nil
+}
+
 func (c *Conn) Read(b []byte) (int, error) {
 	h := c.rh()
 	h.mu.Lock()
@@ -408,7 +502,7 @@ func (c *Conn) Read(b []byte) (int, error) {
 		if len(b) == 0 {
 			return 0, nil
 		}
-		if len(h.buf) > 0 {
+		if len(h.buf) > 0 && !h.stalled {
 			n := h.seg(h.readOff, len(h.buf))
 			if n > len(b) {
 				n = len(b)
@@ -425,7 +519,7 @@ func (c *Conn) Read(b []byte) (int, error) {
 			h.c.Broadcast()
 			return n, nil
 		}
-		if len(h.queue) == 0 {
+		if len(h.queue) == 0 && len(h.buf) == 0 {
 			if h.rerr != nil {
 				return 0, h.rerr
 			}
@@ -469,8 +563,35 @@ func (c *Conn) Close() error {
 func (c *Conn) LocalAddr() net.Addr  { return c.laddr }
 func (c *Conn) RemoteAddr() net.Addr { return c.raddr }
 
-func (c *Conn) SetDeadline(t time.Time) error      { return c.SetReadDeadline(t) }
-func (c *Conn) SetWriteDeadline(t time.Time) error { return nil }
+func (c *Conn) SetDeadline(t time.Time) error {
+	c.SetWriteDeadline(t)
+	return c.SetReadDeadline(t)
+}
+
+// SetWriteDeadline is honoured by writes that block on a bounded window.
+func (c *Conn) SetWriteDeadline(t time.Time) error {
+	h := c.wh()
+	h.mu.Lock()
+	defer h.mu.Unlock()
+	h.wdl = t
+	if h.wtimer != nil {
+		h.wtimer.Stop()
+		h.wtimer = nil
+	}
+	if !t.IsZero() {
+		d := time.Until(t)
+		if d < 0 {
+			d = 0
+		}
+		h.wtimer = time.AfterFunc(d, func() {
+			h.mu.Lock()
+			h.c.Broadcast()
+			h.mu.Unlock()
+		})
+	}
+	h.c.Broadcast()
+	return nil
+}
 func (c *Conn) SetReadDeadline(t time.Time) error {
 	h := c.rh()
 	h.mu.Lock()
